@@ -186,6 +186,8 @@ func c40(c *an.Check) {
 	// NILDEREF over the same functions: a (pointer|interface, error) result is dereferenced only behind err == nil
 	nND := c.NilDerefGuard("NILDEREF", "network decoder: (value, error) results dereferenced only when err==nil", fns, vtSafeRecv)
 	c.Note("NILDEREF examined %d (value, error) call sites in %d decoder functions", nND, len(fns))
+	nRel := c.ReleasedNotReturned("OWNERSHIP", "network decoder: returned values do not alias released pool storage", fns)
+	c.Note("OWNERSHIP examined %d sync.Pool releases in the decoder functions", nRel)
 	c.Totality(an.PanicSpec{Construct: "network decoder totality", Funcs: fns, BCE: bce, Min: 70, Preconds: pre, Reviewed: map[string]string{
 		"peer.DecryptWithEd25519: bounds tPrivKeyCurve25519[:32]":                                                  "PrivateKeyToCurve25519 returns a 64-byte SHA-512 digest",
 		"peer.DecryptWithEd25519: assert to ed25519.PublicKey":                                                     "crypto/ed25519 documents PrivateKey.Public() to return ed25519.PublicKey",
